@@ -109,8 +109,28 @@ def add(*xs):
     return ('+',) + tuple(flat)
 
 
+def bit_of(t, k):
+    """Boolean term for bit k of a *bit-sum* term: a sum of constants and ite(c, 2^m, 0) summands with pairwise distinct
+    bit positions (the way a symbolic bit vector is written as an integer); None if `t` is not of that shape"""
+    parts = t[1:] if t[0] == '+' else (t,)
+    used, found = 0, None
+    for x in parts:
+        if x[0] == 'c':
+            if x[1] < 0 or (x[1] & used): return None
+            used |= x[1]
+            if (x[1] >> k) & 1: found = TRUE
+        elif x[0] == 'ite' and is_c(x[2]) and is_c(x[3]) and x[3][1] == 0 and x[2][1] > 0 and (x[2][1] & (x[2][1] - 1)) == 0:
+            if x[2][1] & used: return None
+            used |= x[2][1]
+            if x[2][1] == (1 << k): found = x[1]
+        else:
+            return None
+    return found if found is not None else FALSE
+
+
 def sub(a, b):
     if is_c(a) and is_c(b): return C(a[1] - b[1])
+    if is_c(a) and a[1] == 0 and b[0] == '-' and is_c(b[1]) and b[1][1] == 0: return b[2]
     if is_c(b) and b[1] == 0: return a
     if is_c(b): return add(a, C(-b[1]))
     if a == b: return C(0)
@@ -183,6 +203,13 @@ def cmp(op, a, b):
         return cmp('<', b, a)
     elif op == '=':
         if a == b: return TRUE
+        for x, y in ((a, b), (b, a)):
+            if x[0] == 'ite' and is_c(x[2]) and is_c(x[3]) and is_c(y):
+                e2, e3 = x[2][1] == y[1], x[3][1] == y[1]
+                if e2 and e3: return TRUE
+                if e2: return x[1]
+                if e3: return not_(x[1])
+                return FALSE
         if known(ah) and known(bl) and ah < bl: return FALSE
         if known(al) and known(bh) and al > bh: return FALSE
         if is_c(a) and is_c(b): return TRUE if a[1] == b[1] else FALSE
@@ -255,6 +282,77 @@ def _smt(t, out):
             out.append(' ')
             _smt(x, out)
         out.append(')')
+
+
+def abstract_div(terms):
+    """replace every div/mod by a positive constant with a fresh quotient variable q and the exact linear definition
+    c*q <= x < c*q + c (returns new terms, list of new declarations, list of defining constraints)"""
+    memo, decl, cons = {}, [], []
+    def go(t):
+        if t[0] in ('c', 'v', 'bv', 'true', 'false'): return t
+        k = id(t)
+        r = memo.get(k)
+        if r is not None and r[0] is t: return r[1]
+        args = tuple(go(x) if isinstance(x, tuple) else x for x in t[1:])
+        if t[0] in ('div', 'mod') and is_c(args[1]) and args[1][1] > 0:
+            key = ('q', smt(args[0]) if len(decl) < 0 else id(t[1]), args[1][1])
+            q = memo.get(key)
+            if q is None:
+                q = ('v', f'_q{len(decl)}'); decl.append(q[1])
+                c = args[1]
+                cons.append(('and', ('<=', ('*', c, q), args[0]), ('<', args[0], ('+', ('*', c, q), c))))
+                memo[key] = q
+            n = q if t[0] == 'div' else ('-', args[0], ('*', args[1], q))
+        else:
+            n = (t[0],) + args
+        memo[k] = (t, n)
+        return n
+    return [go(t) for t in terms], decl, cons
+
+
+def smt_dag(terms):
+    """print a list of terms sharing structure: returns (definition lines, [printed term]) where every compound subterm that occurs
+    more than once (by identity or equality) is bound once with define-fun — nested ite/div chains are DAGs, not trees"""
+    count, order, canon = {}, [], {}
+    def visit(t):
+        if t[0] in ('c', 'v', 'bv', 'true', 'false'): return
+        k = id(t)
+        if k in count:
+            count[k] += 1; return
+        count[k] = 1
+        for x in t[1:]:
+            if isinstance(x, tuple): visit(x)
+        order.append(t)
+    for t in terms: visit(t)
+    names, defs = {}, []
+    BOOL = ('<=', '<', '>=', '>', '=', 'distinct', 'not', 'and', 'or')
+    def pr(t, out):
+        k = t[0]
+        if k == 'c':
+            n = t[1]; out.append(str(n) if n >= 0 else f'(- {-n})'); return
+        if k in ('v', 'bv'): out.append(t[1]); return
+        if k in ('true', 'false'): out.append(k); return
+        nm = names.get(id(t))
+        if nm is not None: out.append(nm); return
+        out.append('(' + k)
+        for x in t[1:]:
+            out.append(' '); pr(x, out)
+        out.append(')')
+    def sort_of(t):
+        k = t[0]
+        if k in BOOL or k in ('true', 'false', 'bv'): return 'Bool'
+        if k == 'ite': return sort_of(t[2])
+        return 'Int'
+    for t in order:
+        if count[id(t)] > 1:
+            out = []; pr(t, out)
+            nm = f'_d{len(defs)}'
+            defs.append(f'(define-fun {nm} () {sort_of(t)} {"".join(out)})')
+            names[id(t)] = nm
+    res = []
+    for t in terms:
+        out = []; pr(t, out); res.append(''.join(out))
+    return defs, res
 
 
 def decls(extra_bounds=True):
